@@ -57,7 +57,7 @@ func runC10(c *Ctx) {
 			c.R.Fail("R10.1", o.Key, p.Pos(o.Instr.Pos()), fmt.Sprintf("no dominating guard, construction or provenance rule establishes len >= %d: the access panics on an input that leaves the container shorter", o.Need))
 		}
 	}
-	c.R.RequireMin("R10.1", "NonEmpty obligations in v2 and v2/assets", len(obls), 20)
+	c.R.RequireMin("R10.1", "NonEmpty obligations in v2 and v2/assets", len(obls), 8)
 
 	// R10.2 panics and MustCompile reachable from the four APIs
 	reach := map[*ssa.Function]bool{}
